@@ -9,6 +9,7 @@ import (
 	"sort"
 	"strconv"
 	"strings"
+	"sync"
 	"time"
 
 	"github.com/c2h5oh/datasize"
@@ -236,7 +237,7 @@ func (r *routeComp) Impl(c Case) []string {
 					res = "panic " + panicKind(rc)
 				}
 			}()
-			switch o.Name {
+			switch strings.Replace(o.Name, "router ", "route ", 1) {
 			case "route new":
 				if ri != nil {
 					ri.orch.Shutdown()
@@ -263,6 +264,72 @@ func (r *routeComp) Impl(c Case) []string {
 				case <-time.After(10 * time.Second):
 					return "lost"
 				}
+			case "route race":
+				// several connections meet new key sets at the same moment
+				nSinks, nKeys := int(o.Ints[0]), int(o.Ints[1])
+				type got struct{ keys, tag string }
+				var res []got
+				done := make(chan struct{})
+				go func() {
+					for h := range ri.hits {
+						if h.p == nil {
+							break
+						}
+						res = append(res, got{strings.Join([]string(h.rec.Fields[:ri.n]), "\x00"), h.p.tag})
+					}
+					close(done)
+				}()
+				var wg sync.WaitGroup
+				start := make(chan struct{})
+				for si := 0; si < nSinks; si++ {
+					wg.Add(1)
+					go func(si int) {
+						defer wg.Done()
+						sink := ri.orch.NewSink("verif-race", base.ClientNumber(10+si))
+						<-start
+						for j := 0; j < nKeys; j++ {
+							fields := make(base.LogFields, ri.n)
+							for k := range fields {
+								fields[k] = fmt.Sprintf("s%dk%dp%d", si, j, k)
+							}
+							sink.Accept([]*base.LogRecord{ri.schema.NewTestRecord1(fields)})
+						}
+						sink.Close()
+					}(si)
+				}
+				close(start)
+				wg.Wait()
+				// every record has been handed to its pipeline channel; wait until the recording pipelines have reported them
+				deadline := time.Now().Add(10 * time.Second)
+				for time.Now().Before(deadline) {
+					time.Sleep(5 * time.Millisecond)
+					if len(ri.hits) == 0 {
+						time.Sleep(20 * time.Millisecond)
+						if len(ri.hits) == 0 {
+							break
+						}
+					}
+				}
+				ri.hits <- pipeHit{nil, nil}
+				<-done
+				bad := 0
+				first := ""
+				for _, g := range res {
+					want := refExpand(ri.parts, strings.Split(g.keys, "\x00"))
+					if g.tag != want {
+						bad++
+						if first == "" {
+							first = fmt.Sprintf("keys=%s tag=%s want=%s", hx([]byte(g.keys)), hx([]byte(g.tag)), hx([]byte(want)))
+						}
+					}
+				}
+				if len(res) != nSinks*nKeys {
+					return fmt.Sprintf("race delivered=%d of %d", len(res), nSinks*nKeys)
+				}
+				if bad > 0 {
+					return fmt.Sprintf("race BAD=%d of %d %s", bad, len(res), first)
+				}
+				return fmt.Sprintf("race ok n=%d", len(res))
 			case "route metric":
 				mrec := ri.pooledRecord(o.Bytes)
 				ic := ri.pcount.SelectMetricKeySet(mrec)
@@ -377,6 +444,17 @@ func (r *routeComp) Oracle(c Case, impl []string) string {
 			tuple[j] = string(b)
 		}
 		tk := fmt.Sprintf("%q", tuple)
+		if o.Name == "router race" {
+			if !strings.HasPrefix(got, "race ok") {
+				f := strings.Fields(got)
+				if len(f) >= 6 && strings.HasPrefix(f[1], "BAD=") {
+					return fmt.Sprintf("with %d connections creating key sets at the same time, %s pipelines carry the tag of another key set: keys %q delivered under tag %q, their own tag is %q",
+						o.Ints[0], strings.TrimPrefix(f[1], "BAD="), unhx(strings.TrimPrefix(f[4], "keys=")), unhx(strings.TrimPrefix(f[5], "tag=")), unhx(strings.TrimPrefix(f[6], "want=")))
+				}
+				return "concurrent key-set creation: " + got
+			}
+			continue
+		}
 		switch o.Name {
 		case "route new":
 			parts = nil
@@ -586,6 +664,12 @@ func (r *routeComp) Generate(rng *rand.Rand, n int, emit func(Case)) {
 				emit(Case{Ops: ops, Tag: "length-wrap"})
 			}
 		}
+	}
+	// several connections creating new key sets at the same moment, multi-part tag templates
+	for i := 0; i < 2+n/400; i++ {
+		arity := 1 + rng.Intn(2)
+		toks := []string{strconv.Itoa(arity), "L" + hx([]byte("t.")), "V0", "L" + hx([]byte("-")), fmt.Sprintf("V%d", arity-1), "L" + hx([]byte(".end"))}
+		emit(Case{Ops: []Op{{Name: "route new", Strs: toks}, {Name: "router race", Ints: []int64{8, 300}}}, Tag: "race"})
 	}
 	// records of one layout with keys of one length from one connection: the backing buffer of a released record is reused
 	// by the next one, so anything that remembers a key by reference sees the next record's key
